@@ -44,6 +44,8 @@ def _mats(case, m, n, N):
             p.plyts[i] = L['plyts'][i]
     else:
         p = pkg.make_panel(c)
+    if case.get('force_ortho'):
+        p.force_orthotropic_laminate = True     # a cross-ply laminate IS orthotropic: the switch must change nothing
     p.Nxx, p.Nyy, p.Nxy = N
     with package('matrices[m=%d,n=%d]' % (m, n)):
         K = dense(p.calc_k0(silent=True))
@@ -177,7 +179,8 @@ def check_closed(case, ctx):
     wtop = getattr(_spectra, 'wmax', 1.)
     ctx.nontrivial = True
     ctx.label('plies:' + ('uniform' if len(set(L['plyts'])) == 1 else 'different-thickness'),
-              'object:' + ('reused-after-in-place-edit' if case.get('prelude') else 'fresh'))
+              'object:' + ('reused-after-in-place-edit' if case.get('prelude') else 'fresh'),
+              'force_orthotropic' if case.get('force_ortho') else 'default-options')
     ctx.label('model:' + case['model'], 'mn:%d' % mn, 'aspect:%s' % ('<0.5' if a / b < 0.5 else '>2' if a / b > 2 else 'mid'))
     ctx.ok(lams is not None and len(lams) >= 1, name + '.setup', 'no positive multiplier / k0 not positive definite')
     for i in range(min(3, len(lams))):
@@ -248,7 +251,7 @@ def _closed_strategy(draw, tier='quick'):
     mn = draw(st.sampled_from([6, 8, 10, 12] if tier == 'quick' else [8, 10, 12, 16, 16]))
     return {'model': model, 'a': a, 'b': b, 'm': mn, 'n': mn, 'lam': lam, 'flags': fl, 'uniform_form': False, 'r': None,
             'alphadeg': None, 'y': None, 'mu': draw(gen.logfl(100., 5000.)), 'Nc': [r, 1. - r], 'mn': mn, 'sparse': draw(st.booleans()),
-            'prelude': prelude}
+            'prelude': prelude, 'force_ortho': draw(st.sampled_from([False, False, True]))}
 
 
 SUBS = [
